@@ -139,10 +139,16 @@ def e1_jobs(prop, tier, seed):
     # ASan (+LSan) on the same seeds
     if c["asan"]:
         cnt = 300 if quick else 8000
-        jobs += seq_jobs("asan-rel", "walk", seed, n, ["--count", str(cnt)] + base, "asan-rel", kind="asan", crash=crash, env=ASAN_ENV, timeout=1500)
+        aj = seq_jobs("asan-rel", "walk", seed, n, ["--count", str(cnt)] + base, "asan-rel", kind="asan", crash=crash, env=ASAN_ENV, timeout=1500)
+        for k, j in enumerate(aj):
+            j.argv += ["--parity", ["odd", "even", "mixed"][k % 3]]  # shifting allocator (no ledger under ASan)
+        jobs += aj
         if not quick:
             build("asan-dbg", ["seqdrive"])
-            jobs += seq_jobs("asan-dbg", "walk", seed + 1000, n, ["--count", "3000"] + base, "asan-dbg", kind="asan", crash=crash, env=ASAN_ENV, timeout=1500)
+            aj = seq_jobs("asan-dbg", "walk", seed + 1000, n, ["--count", "3000"] + base, "asan-dbg", kind="asan", crash=crash, env=ASAN_ENV, timeout=1500)
+            for k, j in enumerate(aj):
+                j.argv += ["--parity", ["mixed", "odd", "even"][k % 3]]
+            jobs += aj
     # Miri shards (exact bounds / provenance / uninitialised reads / leaks); odd addresses occur naturally
     nm, cnt = (6, 3) if quick else (32, 8)
     args = []
@@ -189,7 +195,7 @@ def e1_jobs(prop, tier, seed):
         build("relsys", ["seqdrive"])
         exe = binpath("relsys", "seqdrive")
         for k in range(8):
-            argv = ["valgrind", "--error-exitcode=9", "--quiet", "--leak-check=no", exe, "walk", "--seed", str(seed), "--shard", str(k), "--nshards", "8", "--count", "40", "--ooc"]
+            argv = ["valgrind", "--error-exitcode=9", "--quiet", "--leak-check=no", exe, "walk", "--seed", str(seed), "--shard", str(k), "--nshards", "8", "--count", "40", "--ooc", "--parity", ["odd", "even"][k % 2]]
             jobs.append(Job(f"valgrind:{k}", argv, kind="valgrind", build="relsys", crash=crash, timeout=1500))
     return jobs
 
@@ -272,7 +278,7 @@ def buf_jobs(buildname, mode, seed, nshards, extra, label, kind="native", crash=
     jobs = []
     for s in range(nshards):
         argv = [exe, mode, "--seed", str(seed), "--shard", str(s), "--nshards", str(nshards)] + extra
-        if parity:
+        if parity or kind == "asan":
             argv += ["--parity", ["mixed", "odd", "even"][s % 3]]
         jobs.append(Job(f"{label}:{s}", argv, env=env, kind=kind, build=buildname, crash=crash, timeout=timeout))
     return jobs
@@ -293,7 +299,7 @@ def buf_valgrind(mode, seed, nshards, extra, label, crash="inconclusive"):
     exe = binpath("relsys", "bufconf")
     jobs = []
     for s in range(nshards):
-        argv = ["valgrind", "--error-exitcode=9", "--quiet", "--leak-check=no", exe, mode, "--seed", str(seed), "--shard", str(s), "--nshards", str(nshards)] + extra
+        argv = ["valgrind", "--error-exitcode=9", "--quiet", "--leak-check=no", exe, mode, "--seed", str(seed), "--shard", str(s), "--nshards", str(nshards), "--parity", ["odd", "even", "mixed"][s % 3]] + extra
         jobs.append(Job(f"{label}:{s}", argv, kind="valgrind", build="relsys", crash=crash, timeout=1500))
     return jobs
 
@@ -456,7 +462,9 @@ def conc_native(buildname, seed, nshards, progs, reps, label, kind="native", env
     exe = binpath(buildname, "conc")
     jobs = []
     for s in range(nshards):
-        argv = [exe, "stress", "--seed", str(seed), "--shard", str(s), "--nshards", str(nshards), "--progs", str(progs), "--reps", str(reps)] + (extra or [])
+        # buffer-address parity per shard (ledger builds: ledger placement; ASan/TSan builds: the stateless shifting
+        # allocator), so that the PROMOTABLE_ODD representation is raced natively too
+        argv = [exe, "stress", "--seed", str(seed), "--shard", str(s), "--nshards", str(nshards), "--progs", str(progs), "--reps", str(reps), "--parity", ["mixed", "odd", "even"][s % 3]] + (extra or [])
         jobs.append(Job(f"{label}:{s}", argv, env=env, kind=kind, build=buildname, crash="violation", timeout=2400))
     return jobs
 
